@@ -213,6 +213,13 @@ def d3_precedence(ctx, obs, rule='C03-D3'):
     for st in stores:
         src = source(st.value)
         key = 'obs.py:Obs.gamma_method._parse_kwarg#source[%s]' % src
+        if src is None and isinstance(st.value, ast.Subscript) and unparse(st.value.value).startswith('Obs.') and unparse(st.value.slice) == pname:
+            # a class-level table indexed by the parameter name: its entries were bound when the class body ran, later assignments to
+            # Obs.S_global / tau_exp_global / N_sigma_global are not seen
+            ctx.violated(rule, 'obs.py:Obs.gamma_method._parse_kwarg#source[global]', 'the global default is read from the class-level table `%s`, a snapshot taken when the class was defined: '
+                         'assigning Obs.<parameter>_global afterwards has no effect (explicit argument > per-ensemble dictionary > *current* global default)' % unparse(st.value.value), obs.loc(st))
+            seen.add('global')
+            continue
         if src is None:
             ctx.unrec(rule, 'obs.py:Obs.gamma_method._parse_kwarg#source[?]', 'cannot classify value %s' % unparse(st.value), obs.loc(st))
             continue
